@@ -216,3 +216,14 @@ _targets_before_choice = targets
 
 def targets():      # noqa: F811
     return _targets_before_choice() + [target_representation_choice()]
+
+
+
+_targets_before_dispatch_c09 = targets
+
+
+def targets():      # noqa: F811
+    # shared with C08: the work items of the multi-process branches are unpacked by position (tuple protocols), and the dispatch to
+    # the three implementations hands every value on unchanged
+    from . import forwarding, tupleproto
+    return _targets_before_dispatch_c09() + [forwarding.target_perform_tests_dispatch(), tupleproto.target_tuple_protocols()]
